@@ -584,10 +584,44 @@ func (e *Exec) sprintf(format Str, args []Value) Str {
 		case 'd', 'v', 's':
 			switch x := a.(type) {
 			case Int:
-				if flags != "" || verb == 's' {
+				if x.S == nil && verb != 's' {
+					if x.Sg {
+						parts = append(parts, cs(fmt.Sprintf("%"+flags+"d", x.C)))
+					} else {
+						parts = append(parts, cs(fmt.Sprintf("%"+flags+"d", uint64(x.C))))
+					}
+					break
+				}
+				if verb == 's' {
 					panic(unsupported("symbolic %" + flags + string(verb)))
 				}
-				parts = append(parts, e.itoa(x))
+				if flags == "" {
+					parts = append(parts, e.itoa(x))
+					break
+				}
+				// width, optionally zero-padded: %5d %05d
+				zero := flags[0] == '0'
+				wd, err := strconv.Atoi(flags)
+				if err != nil || wd < 0 || strings.ContainsAny(flags, ".+-# ") {
+					panic(unsupported("symbolic %" + flags + string(verb)))
+				}
+				digits := e.itoa(x) // forks on sign and digit count; "-" first when negative
+				sign := ""
+				if digits.Len() > 0 {
+					if b := digits.At(0); b.S == nil && b.C == '-' {
+						sign = "-"
+						digits = digits.Sub(1, digits.Len())
+					}
+				}
+				pad := wd - digits.Len() - len(sign)
+				if pad < 0 {
+					pad = 0
+				}
+				if zero {
+					parts = append(parts, cs(sign), cs(strings.Repeat("0", pad)), digits)
+				} else {
+					parts = append(parts, cs(strings.Repeat(" ", pad)), cs(sign), digits)
+				}
 			case Str:
 				if flags != "" || verb == 'd' {
 					panic(unsupported("symbolic %" + flags + string(verb)))
